@@ -7,7 +7,7 @@ import subprocess
 import sys
 
 ROOT = os.path.dirname(os.path.dirname(os.path.abspath(__file__)))
-WT = '/root/work/refrepo'
+WT = os.environ.get('REFREPO', '/root/work/refrepo')
 
 
 def sh(cmd, **kw):
